@@ -3,7 +3,7 @@
 
 From Coq Require Import List Bool ZArith QArith Arith.
 Import ListNotations.
-From PS Require Import Num ModelKernels ModelFuncs ModelAPI ModelIO Heap Val.
+From PS Require Import Num ModelKernels ModelFuncs ModelAPI ModelIO Heap ModelSort Val.
 Local Open Scope nat_scope.
 
 Definition o := QOps.
@@ -269,6 +269,19 @@ Definition dispatch (id : nat) (args : list val) : val :=
           VL [VL (map (fun k => match denote st k with Some f => encPwc f | None => VNone end)
                       (seq 0 (length (st_objs st))));
               VL (map VE (st_errs st))]
+      | _, _ => bad end
+  (* ---- simulated annealing of optimal_spike_train_sorting (ModelSort.v): matrix, scripted rand() pattern ---- *)
+  | 95, [m; pat] =>
+      match asQss m, asNs pat with
+      | Some D, Some pt =>
+          match sorting_from_matrix o (cyc pt) metro_script D 120 with
+          | Some (p, A, it) => VL [VL (map VN p); VQ A; VN it]
+          | None => bad
+          end
+      | _, _ => bad end
+  | 96, [m; p] =>
+      match asQss m, asNs p with
+      | Some D, Some pp => VL [encMatrix (permutate_matrix o D pp); VQ (triu_sum o D)]
       | _, _ => bad end
   | _, _ => bad
   end.
